@@ -72,6 +72,27 @@ HISTORY = {
     "C18-3": ("missed", "C18 driver: empty / null items in the parameter-set list, null blocks; the loader runs under recover so that a crash is a reported input, not a dead driver"),
     "C19-3": ("translator only (runHook became a method)", "C19 driver: the caller is built by NewHooksCaller; every other pattern has a second hook that runs longer than the rate limit; coverage is per eligible hook"),
     "C20-3": ("driver did not build (stub _pam_macros.h lacked _pam_overwrite_n)", "stub header completed from Linux-PAM; the user x password length grid always contains every pair with both fields at or beyond the limit"),
+    # round 4 (told about the three earlier seeds; asked for untouched clauses, entry points, environment conditions)
+    "C01-4": ("correspondence only (fault traces differ, no failing input)", "trace cases of C01 / C08: the temp file must be created exclusively (O_EXCL) - the tmp_fresh premise of the crash-safety theorem, now checked on every observed add / update"),
+    "C02-4": ("missed by C02 (reported by C18: reload keeps retired sets)", "C02 got an agent-level part (Run/C02a): records of three sets in use, a reload retires or redefines one, authenticate / list / list-full / update judged under the configuration now in force"),
+    "C03-4": ("missed", "C03 driver: well-formed records under names outside the grammar planted among valid ones; directories whose only administrator has such a name; the monitor requires a grammar-named admin behind every accepted check"),
+    "C04-4": ("missed", "C04 driver: /api/authenticate bodies that leave out or null a field, right after an accepted login on the same listener"),
+    "C05-4": ("missed", "C05 driver: a callback that takes 3.6 s, a client that delivers its request over 4 s"),
+    "C06-4": ("missed", "C06 driver: 480 concurrent logins (right password / wrong password / unknown user) on one listener"),
+    "C07-4": ("missed", "C07 driver: 16 goroutines issue 600 tokens each on one factory: no two nonces equal"),
+    "C08-4": ("caught", ""),
+    "C09-4": ("missed", "C09 now runs every single-fault trace and judges every ACKNOWLEDGED one (it judged undisturbed traces only); this also exposed the genuine defect D12 (remove could not report failure), repaired by b74e4b4; AckedDurable_proofs proves acknowledged => durable for every fault"),
+    "C10-4": ("missed", "C10 driver: eight SIGHUP reloads (good, broken, new default) with and without a hooks directory, every request kind probed after each; tools/facts: every wait of HooksCaller.run receives from both channels"),
+    "C11-4": ("missed", "C11 driver: odd clients use a handle of their own (as every listener does); directed histories: login through one handle, acknowledged change through another, old and new credentials through the first"),
+    "C12-4": ("missed by C12 (reported by C14 / C18)", "C12 driver: a reload that changes nothing but the default in the middle of a login sequence; the rest of the sequence is judged under the new default"),
+    "C13-4": ("missed by C13 (reported by C20 as a request mismatch)", "C13 got the PAM encoder part: the module's request bytes for 14+ (user, password) pairs with the kernel taking 1..257 bytes per send() (send / write wrapped at link time)"),
+    "C14-4": ("missed", "store drivers: planted records dated in the future (and at int64 edges)"),
+    "C15-4": ("missed", "residue in .tmp that is days old (directory cases and traced scenarios), read-only operations traced on it"),
+    "C16-4": ("missed", "C16 agent part: concurrent add requests for one new name in both classes through separate handles (scrypt cost 12 so that they overlap)"),
+    "C17-4": ("missed", "C17 driver: passwords of 70-140 bytes that are strong only in the tail or weak only as a whole, in the write-path candidates and the behavioural panel"),
+    "C18-4": ("caught", ""),
+    "C19-4": ("caught (the hook's working directory did not exist in the driver's set-up, so no hook started)", ""),
+    "C20-4": ("missed", "C20 driver: the host application handles SIGUSR1; signals arrive while the module waits, followed by a full reply / close / cut reply / silence"),
 }
 
 
